@@ -176,6 +176,8 @@ class Loc:
         self.df = df
 
     def abs_getitem(self, interp, key, node):
+        if isinstance(key, Vec) or (isinstance(key, slice) and key == slice(None)):
+            key = (key, slice(None))          # df.loc[rows] selects rows and keeps every column
         if not (isinstance(key, tuple) and len(key) == 2):
             raise AnalysisError('.loc form not modelled', node)
         rows, cols = key
